@@ -160,7 +160,12 @@ from mypy.server.deps import get_dependencies_of_target, merge_dependencies
 from mypy.server.target import trigger_to_target
 from mypy.server.trigger import WILDCARD_TAG, make_trigger
 from mypy.typestate import type_state
-from mypy.util import is_stdlib_file, module_prefix, split_target
+from mypy.util import (
+    correct_relative_import,
+    is_stdlib_file,
+    module_prefix,
+    split_target,
+)
 
 MAX_ITER: Final = 1000
 
@@ -1304,8 +1309,11 @@ def refresh_suppressed_submodules(
                     assert tree  # Will be fine, due to refresh_file() above
                     for imp in tree.imports:
                         if isinstance(imp, ImportFrom):
+                            imp_id, _ = correct_relative_import(
+                                state.id, imp.relative, imp.id, tree.is_package_init_file()
+                            )
                             if (
-                                imp.id == module
+                                imp_id == module
                                 and any(name == shortname for name, _ in imp.names)
                                 and submodule not in state.suppressed_set
                             ):
